@@ -47,12 +47,12 @@ def gen_ops(rng, tier):
         ops.append("tjcrop %d %d %d %d %d %d %d %d" % (jw, jh, ss, sfi, x, y, w, h))
     ops.append("tjcrop 64 64 0 8 0 0 0 0")
     for i in range(2500 if big else 420):
-        ss = rng.choice([0, 1, 2, 2, 4, 5, 6, 3])
+        ss = rng.choice([0, 1, 2, 2, 4, 5, 6, 3, 42, 24, 31, 13, 44, 22, 32])
         w = rng.choice([17, 33, 40, 48, 65]); h = rng.choice([17, 33, 40, 48, 70])
         prog = int(rng.random() < .25); arith = int(rng.random() < .15)
         snum = rng.choice([8, 8, 8, 4, 2, 1, 3, 5, 6, 7, 9, 12, 16])
         fancy = rng.randint(0, 1); dct = int(rng.random() < .2)
-        mcuh = {0: 8, 1: 8, 2: 16, 3: 8, 4: 16, 5: 8, 6: 32}[ss]
+        mcuh = {0: 8, 1: 8, 2: 16, 3: 8, 4: 16, 5: 8, 6: 32}[ss] if ss < 10 else 8 * (ss % 10)
         lines = max(1, mcuh * snum // 8)
         oh = (h * snum + 7) // 8
         calls = history(rng, lines, oh)
